@@ -30,6 +30,9 @@ _cmp = {"n": 0, "programs": 0}
 
 
 def run(ctx):
+    ctx.rule("R01.7", "finish_attribute leaves the attribute name and value buffers empty, also when the attribute is dropped as a duplicate")
+    from . import tokrules as _tr7
+    ctx.guard("R01.7", "attr-buffers", lambda: _tr7.attr_buffers_emptied(ctx, "R01.7", "html"))
     ctx.rule("R01.1", "flattened transition function of step/eof_step equals the reviewed reference, per (state, character class, guard valuation)")
     ctx.rule("R01.2", "every concrete state has its own row in step and eof_step; a path that starts a character reference returns to the driver")
     ctx.rule("R01.3", "helper methods of Tokenizer in normal form equal the reviewed reference")
